@@ -31,6 +31,9 @@ using F = tr::Flavour<float, 1, 3, float, long, 3>;
 
 void VH_FN(std::map<std::string, std::vector<tr::Segment>>& out) {
     out["c06"].push_back(tr::c06Segment<F>(120, 20000));
+#if VH_FL == 1 || VH_FL == 2 || VH_FL == 5 || VH_FL == 4
+    out["c06"].push_back(tr::c06HugeSegment<F>(1, 6));
+#endif
     out["c07"].push_back(tr::c07Segment<F>(100, 10000));
 #if VH_FL == 1
     for (long H : {2L, 3L, 4L, 5L}) out["c07"].push_back(tr::c07EnumSegment<F>(H));
@@ -41,6 +44,7 @@ void VH_FN(std::map<std::string, std::vector<tr::Segment>>& out) {
 #endif
     out["c13"].push_back(tr::c13Segment<F>(60, 6000));
     out["c13"].push_back(tr::c13TsmSegment<F>(20, 2000));
+    out["c13"].push_back(tr::c13EmptySegment<F>(4, 40));
     out["c16"].push_back(tr::c16Segment<F>(60, 6000));
     out["c17"].push_back(tr::c17Segment<F>(60, 6000));
 }
